@@ -159,7 +159,16 @@ pub fn type_s(t: &Type) -> String {
 
 fn disp(v: &Value) -> String {
     match v {
-        Value::NativeObject(_) => "<opaque>".into(),
+        // a stdlib stub prints its struct name; every other native object (ScopeBinding, the request adaptor, addresses)
+        // prints a Debug form with run-specific content
+        Value::NativeObject(_) => {
+            let s = v.to_string();
+            if ["ToString", "ToInteger", "Split", "StringConcat"].contains(&s.as_str()) {
+                s
+            } else {
+                "<opaque>".into()
+            }
+        }
         Value::Array(a) => format!("[{}]", a.iter().map(disp).collect::<Vec<_>>().join(",")),
         Value::Tuple(a) => format!("({})", a.iter().map(disp).collect::<Vec<_>>().join(",")),
         other => other.to_string(),
@@ -497,7 +506,10 @@ impl<'a> Gen<'a> {
         match self.rng.below(16) {
             0..=4 => {
                 let o = *self.rng.pick(&["+", "-", "*", "/", "%", "&", "|", "^", "<<", ">>", ">>>", "&&", "||", "^^", "==", "!=", "<", "<=", ">", ">=", "=~", "!~", "_:"]);
-                T::Bin(o, b(self.wild(d1)), b(self.wild(d1)))
+                // the pattern operand of =~ / !~ comes from the pattern pool: regex matching is an external parameter of the
+                // model, and the model side implements exactly the pool's syntax (arbitrary strings as patterns are not compared)
+                let rhs = if o == "=~" || o == "!~" { T::Str(self.rng.pick(PATS).to_string()) } else { self.wild(d1) };
+                T::Bin(o, b(self.wild(d1)), b(rhs))
             }
             5 => T::Un(*self.rng.pick(&["!", "~", "-"]), b(self.wild(d1))),
             6 => T::If(b(self.wild(d1)), b(self.wild(d1)), b(self.wild(d1))),
